@@ -317,24 +317,26 @@ func dependsOnX(w *World, v ssa.Value, pred func(ssa.Value) bool, ctl bool) bool
 		case *ssa.Alloc:
 			// a composite literal: the values stored into its fields / the variable
 			found := false
-			if refs := x.Referrers(); refs != nil {
+			var scan func(addr ssa.Value, depth int)
+			scan = func(addr ssa.Value, depth int) {
+				refs := addr.Referrers()
+				if refs == nil || depth > 4 {
+					return
+				}
 				for _, rf := range *refs {
 					switch y := rf.(type) {
 					case *ssa.FieldAddr:
-						if fr := y.Referrers(); fr != nil {
-							for _, u := range *fr {
-								if st, ok := u.(*ssa.Store); ok && st.Addr == ssa.Value(y) && walk(st.Val) {
-									found = true
-								}
-							}
-						}
+						scan(y, depth+1)
+					case *ssa.IndexAddr:
+						scan(y, depth+1)
 					case *ssa.Store:
-						if y.Addr == ssa.Value(x) && walk(y.Val) {
+						if y.Addr == addr && walk(y.Val) {
 							found = true
 						}
 					}
 				}
 			}
+			scan(x, 0)
 			return found
 		case *ssa.Slice:
 			// slice of a literal backing array (variadic arguments, composite literals)
